@@ -82,10 +82,14 @@ func verifNewPg(store *vks.Store, client string, envelope config.CryptoEnvelopeT
 	return verifNewPgWith(store, client, &config.BasicColumnEncryptionSetting{Name: "secret", UsedClientID: "A", CryptoEnvelope: &env})
 }
 
-func verifNewPgWith(store *vks.Store, client string, setting0 *config.BasicColumnEncryptionSetting) *verifPg {
+func verifNewPgWith(store *vks.Store, client string, settings0 ...*config.BasicColumnEncryptionSetting) *verifPg {
 	crypto.InitRegistry(nil)
-	cp := *setting0
-	schema, err := config.VerifNewStore(false, "t", []string{"id", "secret", "plain"}, &cp)
+	var cps []*config.BasicColumnEncryptionSetting
+	for _, s := range settings0 {
+		cp := *s
+		cps = append(cps, &cp)
+	}
+	schema, err := config.VerifNewStore(false, "t", []string{"id", "secret", "plain"}, cps...)
 	if err != nil {
 		panic("schema: " + err.Error())
 	}
